@@ -13,17 +13,28 @@ pub enum St {
     EscCharset(char),
     Csi { params: Vec<u32>, cur: Option<u32>, private: bool },
     CsiDollar,
-    OscCode,
+    /// directly after the OSC introducer
+    OscStart,
     OscP(u8),
-    OscStr { code: char, buf: String, esc_pending: bool },
+    /// `buf` = everything since the introducer (command number, `;`, text)
+    OscStr { buf: String, esc_pending: bool },
 }
 
 pub struct Recog {
     pub st: St,
     pub utf8: bool,
     pub out: Vec<Op>,
-    /// set when a D8 (declared don't-care) OSC shape was seen
+    /// set when a D8 (declared don't-care) OSC shape was seen whose whole interpretation is open:
+    /// an ESC inside the string followed by ESC / BEL / U+009C, or OSC P with a non-hexadecimal digit
     pub d8: bool,
+    /// an OSC string without any `;`: what the title / icon name become is open (D8), everything
+    /// else -- where the string ends, that nothing reaches the grid -- is defined
+    pub d8_labels: bool,
+    /// D15: an ESC / U+009B / U+009D arrived inside an unfinished ESC or CSI sequence. The statement
+    /// is silent: consuming it as an unknown final (pyte) and restarting a sequence (ECMA-48) are
+    /// both accepted; `esc_restarts` says which of the two this instance implements.
+    pub restart_seen: bool,
+    pub esc_restarts: bool,
     /// CAN / SUB aborted a CSI (D10: whether that character is handed to draw() is not specified;
     /// it matters only under a charset that maps 0x18 / 0x1a to a printable glyph)
     pub d10_abort: bool,
@@ -38,7 +49,7 @@ fn p0(v: &[u32], i: usize) -> Option<u32> {
 
 impl Recog {
     pub fn new(utf8: bool) -> Recog {
-        Recog { st: St::Ground, utf8, out: Vec::new(), d8: false, d10_abort: false, d10_events: Vec::new(), no_merge: false }
+        Recog { st: St::Ground, utf8, out: Vec::new(), d8: false, d8_labels: false, restart_seen: false, esc_restarts: false, d10_abort: false, d10_events: Vec::new(), no_merge: false }
     }
 
     fn text(&mut self, c: char) {
@@ -100,11 +111,22 @@ impl Recog {
 
     pub fn step(&mut self, c: char) {
         let st = std::mem::replace(&mut self.st, St::Ground);
+        if matches!(st, St::Esc | St::EscHash | St::EscPercent | St::EscCharset(_) | St::Csi { .. } | St::CsiDollar) && (c == '\x1b' || c == '\u{9b}' || c == '\u{9d}') {
+            self.restart_seen = true;
+            if self.esc_restarts {
+                self.st = match c {
+                    '\x1b' => St::Esc,
+                    '\u{9b}' => St::Csi { params: vec![], cur: None, private: false },
+                    _ => St::OscStart,
+                };
+                return;
+            }
+        }
         self.st = match st {
             St::Ground => match c {
                 '\x1b' => St::Esc,
                 '\u{9b}' => St::Csi { params: vec![], cur: None, private: false },
-                '\u{9d}' => St::OscCode,
+                '\u{9d}' => St::OscStart,
                 '\x0e' | '\x0f' => {
                     if !self.utf8 {
                         self.out.push(if c == '\x0e' { Op::ShiftOut } else { Op::ShiftIn });
@@ -120,7 +142,7 @@ impl Recog {
             },
             St::Esc => match c {
                 '[' => St::Csi { params: vec![], cur: None, private: false },
-                ']' => St::OscCode,
+                ']' => St::OscStart,
                 '#' => St::EscHash,
                 '%' => St::EscPercent,
                 '(' | ')' => St::EscCharset(c),
@@ -185,27 +207,31 @@ impl Recog {
                 }
             }
             St::CsiDollar => St::Ground,
-            St::OscCode => match c {
+            St::OscStart => match c {
                 'R' => St::Ground,
                 'P' => St::OscP(7),
                 _ => {
-                    if c == '\x1b' || c == '\x07' || c == '\u{9c}' {
-                        self.d8 = true;
-                    }
-                    St::OscStr { code: c, buf: String::new(), esc_pending: false }
+                    // the first character of the string is handled like every other one
+                    self.st = St::OscStr { buf: String::new(), esc_pending: false };
+                    self.step(c);
+                    return;
                 }
             },
             St::OscP(n) => {
+                if !c.is_ascii_hexdigit() {
+                    // "seven hexadecimal digits follow": anything else is not specified
+                    self.d8 = true;
+                }
                 if n <= 1 {
                     St::Ground
                 } else {
                     St::OscP(n - 1)
                 }
             }
-            St::OscStr { code, mut buf, esc_pending } => {
+            St::OscStr { mut buf, esc_pending } => {
                 if esc_pending {
                     if c == '\\' {
-                        self.osc_end(code, &buf);
+                        self.osc_end(&buf);
                         St::Ground
                     } else {
                         if c == '\x1b' || c == '\x07' || c == '\u{9c}' {
@@ -213,44 +239,38 @@ impl Recog {
                         }
                         buf.push('\x1b');
                         buf.push(c);
-                        St::OscStr { code, buf, esc_pending: false }
+                        St::OscStr { buf, esc_pending: false }
                     }
                 } else if c == '\x07' || c == '\u{9c}' {
-                    self.osc_end(code, &buf);
+                    self.osc_end(&buf);
                     St::Ground
                 } else if c == '\x1b' {
-                    St::OscStr { code, buf, esc_pending: true }
+                    St::OscStr { buf, esc_pending: true }
                 } else {
                     buf.push(c);
-                    St::OscStr { code, buf, esc_pending: false }
+                    St::OscStr { buf, esc_pending: false }
                 }
             }
         };
     }
 
-    fn osc_end(&mut self, code: char, buf: &str) {
-        // payload = text after the first ';'
-        let payload = match buf.find(';') {
-            Some(i) => {
-                if i != 0 {
-                    // multi-character code such as "10;..." : D8
-                    self.d8 = true;
+    fn osc_end(&mut self, buf: &str) {
+        // command number = text before the first ';', payload = text after it
+        match buf.split_once(';') {
+            Some((code, payload)) => match code {
+                "0" => {
+                    self.out.push(Op::SetIconName(payload.to_string()));
+                    self.out.push(Op::SetTitle(payload.to_string()));
                 }
-                buf[i + 1..].to_string()
-            }
+                "1" => self.out.push(Op::SetIconName(payload.to_string())),
+                "2" => self.out.push(Op::SetTitle(payload.to_string())),
+                _ => {}
+            },
             None => {
-                self.d8 = true;
-                String::new()
+                if !buf.is_empty() {
+                    self.d8_labels = true;
+                }
             }
-        };
-        match code {
-            '0' => {
-                self.out.push(Op::SetIconName(payload.clone()));
-                self.out.push(Op::SetTitle(payload));
-            }
-            '1' => self.out.push(Op::SetIconName(payload)),
-            '2' => self.out.push(Op::SetTitle(payload)),
-            _ => {}
         }
     }
 
@@ -270,6 +290,41 @@ pub fn recognise(s: &str, utf8: bool) -> (Vec<Op>, bool, bool) {
     r.feed(s);
     let g = r.in_ground();
     (r.out, g, r.d8)
+}
+
+/// Everything the comparisons need: both readings of D15 (the second only when it matters).
+pub struct Recognised {
+    pub events: Vec<Op>,
+    /// the ECMA-48 reading (ESC restarts a sequence), when it differs
+    pub events_alt: Option<Vec<Op>>,
+    pub ground: bool,
+    pub d8: bool,
+    pub d8_labels: bool,
+    pub d10_events: Vec<usize>,
+}
+
+pub fn recognise_full(s: &str, utf8: bool) -> Recognised {
+    let mut r = Recog::new(utf8);
+    r.feed(s);
+    let mut alt = None;
+    let (mut d8, mut d8_labels, mut ground) = (r.d8, r.d8_labels, r.in_ground());
+    if r.restart_seen {
+        let mut r2 = Recog::new(utf8);
+        r2.esc_restarts = true;
+        r2.feed(s);
+        d8 |= r2.d8;
+        d8_labels |= r2.d8_labels;
+        ground &= r2.in_ground();
+        if r2.out != r.out {
+            alt = Some(r2.out);
+        }
+    }
+    Recognised { events: r.out, events_alt: alt, ground, d8, d8_labels, d10_events: r.d10_events }
+}
+
+/// drop the label events (D8: OSC string without `;`)
+pub fn without_labels(ev: &[Op]) -> Vec<Op> {
+    ev.iter().filter(|e| !matches!(e, Op::SetTitle(_) | Op::SetIconName(_))).cloned().collect()
 }
 
 /// like `recognise`, also reporting whether a CAN / SUB abort occurred (D10)
@@ -310,6 +365,10 @@ pub fn normalise(ev: &[Op]) -> Vec<Op> {
                 }
                 Draw(t)
             }
+            // B3: whether an unsupported designator is handed to the listener (which ignores it) is open
+            DefineCharset(code, _) if !matches!(code.as_str(), "B" | "0" | "U" | "V") => continue,
+            // "empty = 0"
+            Sgr(v) if v.is_empty() => Sgr(vec![0]),
             Ich(p) => Ich(z(p)),
             Cuu(p) => Cuu(z(p)),
             Cud(p) => Cud(z(p)),
